@@ -129,10 +129,13 @@ func (vctx *VersionedCtx) GetBestKeyVersion(keys []storage.Key) (storage.Key, er
 	// Get the correct key-value for this version among all ancestors, some of which might have
 	// a value.
 	kv, _, err := versionMap.FindMatch(vctx.VersionID())
+	if err != nil {
+		return nil, err
+	}
 	if kv == nil {
 		return nil, nil
 	}
-	return kv.K, err
+	return kv.K, nil
 }
 
 // VersionUUID returns the UUID associated with this versioned context.
